@@ -91,5 +91,5 @@ def run(ctx):
                               "expect": expect_str(D(y, m, d)), "stratum": "after-failed-calls/%s" % lg, "_sep": sep, "_order": "MDY", "_y": "%04d" % y})
         cases.append({"s": write("MDY", y, m, d, "/", True), "langs": ["tl"], "settings": {"RELATIVE_BASE": base, "TIMEZONE": "UTC", "PREFER_MONTH_OF_YEAR": "first"},
                       "expect": expect_str(D(y, m, d)), "stratum": "after-failed-calls/tl-default", "_sep": "/", "_order": "MDY", "_y": "%04d" % y})
-    res = decide(ctx, cases, model_share=0.35 if tier == "quick" else 0.1, known_key=known_key)
+    res = decide(ctx, cases, model_share=0.35 if tier == "quick" else 1.0, known_key=known_key)
     return res
